@@ -19,7 +19,6 @@ plain FIFO interpreter for the flows.
 from __future__ import annotations
 
 import itertools
-import re
 from collections import deque
 
 PROP = "C02"
@@ -53,6 +52,10 @@ THEOREMS = [
     "C02_two_composites_refine",
     "C02_roundtrip_keeps_firing_order",
     "C02_roundtrip_transposed_witness",
+    "C02_pull_keeps_wiring",
+    "C02_pull_partial_restore_witness",
+    "C02_replace_keeps_order",
+    "C02_replace_reversed_witness",
     "C02_macro_edges_kept",
     "C02_macro_reorders_witness",
     "C02_macro_order_repaired",
@@ -757,6 +760,43 @@ def _run_flow(case):
         idx.update({id(x): i for i, x in enumerate(ns)})
         trips[0] += 1
 
+    plans = edit_plan(as_plain_flow(case), _edits_per_run(case))
+    n_edits = [0]
+
+    def apply_edits(plan):
+        """the edits of one phase on the real objects"""
+        for kind, i, td, ts, _starters in plan["steps"]:
+            n_edits[0] += 1
+            node = ns[i]
+            if kind == "replace":
+                nd = case["nodes"][i]
+                # the same class, constructed with the same own values (a slot without data stays without data)
+                kw = {lab_: N._tok(tok) for lab_, tok in zip(N.SLOTS[nd["kind"]], nd["own"])}
+                new = N.KINDS[nd["kind"]](label=f"fresh{n_edits[0]}", tag=i, **kw)
+                new.use_cache = bool(nd["cache"])
+                new.recovery = None
+                _old, rep = wf.replace_child(node, new)
+                ns[i] = rep
+                idx.clear()
+                idx.update({id(x): k for k, x in enumerate(ns)})
+            elif kind == "pull":
+                try:
+                    node.pull()
+                except Exception:  # noqa: BLE001  (a failing or refusing child: its state says so)
+                    pass
+            elif kind == "readd":
+                was_starter = any(x is node for x in wf.starting_nodes)
+                wf.remove_child(node)
+                wf.add_child(node)
+                for d, sl, sr in td:
+                    lab_ = N.SLOTS[case["nodes"][d]["kind"]][sl]
+                    ns[d].inputs[lab_].connect(ns[sr].outputs[N.OUT[case["nodes"][sr]["kind"]]])
+                for a, c, b, acc, via in ts:
+                    N.connect_signal(ns[a], c, ns[b], acc, via)
+                if was_starter:
+                    wf.starting_nodes.append(node)
+
+    apply_edits(plans[0])
     if trip.get("wire"):
         round_trip()
     orig_run = Node.run
@@ -818,23 +858,33 @@ def _run_flow(case):
         del fired[:]
         starts[0] = 0
         mark = len(N.CALL_LOG)
-        outcome, errs = "ok", []
+        outcome = "ok"
+        collected = []  # children whose run() raised into the composite's loop (delegating wrapper, no message parsing)
+        orig_collect = Composite._collect_child_error
+
+        def collect(self, errors, accounted_for, child, error, n_started_before):
+            if self is wf:
+                collected.append(idx.get(id(child), 999))
+            return orig_collect(self, errors, accounted_for, child, error, n_started_before)
+
         Node.run = run
         Composite.register_child_starting = starting
+        Composite._collect_child_error = collect
         comp_mod.sleep = no_sleep
         try:
             wf.run()
-        except FailedChildError as e:
+        except FailedChildError:
             outcome = "failedchild"
-            errs = sorted({by_label.get(m, 999) for m in re.findall(r"'/wf/(\w+)(?:\.\w+)?': ", str(e))})
         except Runaway:
             outcome = "runaway"
         except Exception as e:  # noqa: BLE001
-            outcome = f"raised:{type(e).__name__}:{str(e)[:200]}"
+            outcome = f"raised:{type(e).__name__}"
         finally:
             Node.run = orig_run
             Composite.register_child_starting = orig_starting
+            Composite._collect_child_error = orig_collect
             comp_mod.sleep = orig_sleep
+        errs = sorted(set(collected))
         exec_log = [lab(l) for l in wf.provenance_by_execution]
         done_log = [lab(l) for l in wf.provenance_by_completion]
         calls = [(t, [canon(x) for x in a]) for (t, a) in N.CALL_LOG[mark:]]
@@ -874,6 +924,7 @@ def _run_flow(case):
         for i in again["heal"]:
             ns[i].failed = False
         wf.failed = False
+        apply_edits(plans[len(runs)])
         if trip.get("between"):
             round_trip()
         r = one_run()
@@ -893,6 +944,7 @@ def _run_flow(case):
         "flow_with_stale_trigger_memory": 1 if case.get("pre") else 0,
         "flow_reruns_after_failure": len(runs) - 1,
         "flow_state_round_trips": trips[0],
+        "flow_edits": n_edits[0],
         f"flow_outcome:{first['outcome'].split(':')[0]}": 1,
     }
     return {"obs": obs, "outcome": first["outcome"], "exec": first["exec"], "calls": first["calls"], "outs": first["outs"],
@@ -922,9 +974,25 @@ def _flow_model_lines(case):
 def _flow_model_input(case):
     lines = _flow_model_lines(case)
     trip = case.get("trip") or {}
-    wire = ["roundtrip"] if trip.get("wire") else []
+    plans = edit_plan(as_plain_flow(case), _edits_per_run(case))
+
+    def edit_lines(plan):
+        out = []
+        for kind, i, td, ts, starters in plan["steps"]:
+            if kind in ("replace", "pull"):
+                out.append(f"{kind} {i}")
+            else:  # readd: every connection of the child is cut, then made again in the order it was written
+                out += [f"ddisc {d} {sl} {sr}" for d, sl, sr in td]
+                out += [f"sdisc {_sig(a, c)} {b} {1 if acc else 0}" for a, c, b, acc, _v in ts]
+                out += [f"dconn {d} {sl} {sr}" for d, sl, sr in td]
+                out += [f"sconn {_sig(a, c)} {b} {1 if acc else 0}" for a, c, b, acc, _v in ts]
+                out.append("starters " + " ".join(str(x) for x in starters))
+        return out
+
+    wire = edit_lines(plans[0]) + (["roundtrip"] if trip.get("wire") else [])
     again = []
-    for r in case.get("rerun", []):
+    for k, r in enumerate(case.get("rerun", [])):
+        again += edit_lines(plans[k + 1])
         if trip.get("between"):
             again.append("roundtrip")
         again.append((f"rerun {MODEL_FUEL} " + " ".join(str(i) for i in r["heal"])).strip())
@@ -967,7 +1035,7 @@ class _TooBig(Exception):
     pass
 
 
-def interpret(case, max_runs=MAX_RUNS, state=None, heal=()):
+def interpret(case, max_runs=MAX_RUNS, state=None, heal=(), pre_ops=()):
     """One FIFO of pending triggers: start tokens for the starting nodes, then one entry per connection of
     every emitted signal, newest connection first. Returns None if more than `max_runs` children run.
     `state` (from an earlier result) + `heal` (children whose `failed` was cleared): the next run of the same graph —
@@ -1007,7 +1075,7 @@ def interpret(case, max_runs=MAX_RUNS, state=None, heal=()):
             sizes[k] = (v, 1 + sum(size(x) for x in v))  # keep v alive so that the id stays unique
         return sizes[k][1]
 
-    def run(i):
+    def run(i, emit=True):
         nd = nodes[i]
         args = []
         for k, tok in enumerate(nd["own"]):
@@ -1040,6 +1108,8 @@ def interpret(case, max_runs=MAX_RUNS, state=None, heal=()):
                 failed[i] = True
                 cached[i] = None
                 errs.add(i)
+        if not emit:
+            return
         emitted = [(i, 1)] if failed[i] else [(i, 0)]
         if nd["kind"] == "if" and not failed[i] and out[i] is not ND:  # a failed If decides nothing
             emitted.append((i, 2) if out[i] else (i, 3))
@@ -1048,6 +1118,15 @@ def interpret(case, max_runs=MAX_RUNS, state=None, heal=()):
                 fifo.append((s, r))
 
     try:
+        # what was done to the children between wiring / the previous run and this run
+        for op, i in pre_ops:
+            if op == "replace":  # a fresh object of the same class with the same connections, values and output
+                failed[i] = False
+                cached[i] = None
+            elif op == "pull":  # the child ran on request, telling nobody
+                run(i, emit=False)
+        del order[:], calls[:]
+        errs.clear()
         while fifo:
             if len(order) > max_runs:
                 return None
@@ -1101,13 +1180,48 @@ def _matches(impl, exp):
             and impl["outs"] == exp["outs"])
 
 
+def edit_plan(plain, edits_per_run):
+    """What the edits between wiring and the first run (`edits_per_run[0]`) and before every re-run mean for the plain
+    flow AS WRITTEN: `replace` and `pull` leave every connection where it is (a replaced starting node goes to the end of
+    the starting nodes — that is where `replace_child` appends it); `readd` (remove_child, add_child, the user makes the
+    child's connections again in the order they were written) makes them the newest ones. Per run: the current lists,
+    the ops on the children's state, and for the implementation / model the connections to re-make."""
+    sig, data, starters = [list(e) for e in plain["sig"]], [list(e) for e in plain["data"]], list(plain["starters"])
+    plans = []
+    for edits in edits_per_run:
+        ops, steps = [], []
+        for kind, i in edits:
+            if kind in ("replace", "readd") and i in starters:
+                starters = [x for x in starters if x != i] + [i]
+            if kind == "readd":
+                ts = [e for e in sig if e[0] == i or e[2] == i]
+                td = [e for e in data if e[0] == i or e[2] == i]
+                sig = [e for e in sig if e not in ts] + ts
+                data = [e for e in data if e not in td] + td
+                steps.append((kind, i, td, ts, list(starters)))
+            else:
+                ops.append((kind, i))
+                steps.append((kind, i, [], [], list(starters)))
+        plans.append({"sig": [list(e) for e in sig], "data": [list(e) for e in data], "starters": list(starters),
+                      "ops": ops, "steps": steps})
+    return plans
+
+
+def _edits_per_run(case):
+    ed = case.get("edits") or {}
+    between = ed.get("between") or []
+    return [ed.get("wire") or []] + [between[k] if k < len(between) else [] for k in range(len(case.get("rerun", [])))]
+
+
 def _expected_runs(case, reorder=False):
-    """the plain interpreter for the first run and every re-run (state carried over, listed children healed)"""
+    """the plain interpreter for the first run and every re-run (state carried over, listed children healed, edits applied)"""
     plain = as_plain_flow(case, reorder=reorder)
+    plans = edit_plan(plain, _edits_per_run(case))
     exps, state = [], None
     for k in range(1 + len(case.get("rerun", []))):
         heal = case["rerun"][k - 1]["heal"] if k else ()
-        e = interpret(plain, max_runs=4 * MAX_RUNS, state=state, heal=heal)
+        cur = {**plain, "sig": plans[k]["sig"], "data": plans[k]["data"], "starters": plans[k]["starters"]}
+        e = interpret(cur, max_runs=4 * MAX_RUNS, state=state, heal=heal, pre_ops=plans[k]["ops"])
         if e is None:
             return None
         exps.append(e)
@@ -1277,7 +1391,7 @@ def _run_flow2(case):
     except Runaway:
         outcome = "runaway"
     except Exception as e:  # noqa: BLE001
-        outcome = f"raised:{type(e).__name__}:{str(e)[:200]}"
+        outcome = f"raised:{type(e).__name__}"
     finally:
         Node.run, Composite.register_child_starting, comp_mod.sleep = orig_run, orig_starting, orig_sleep
         Composite._collect_child_error = orig_collect
@@ -1970,9 +2084,9 @@ TEMPLATES = [_tpl_chain, _tpl_diamond, _tpl_branch, _tpl_loop, _tpl_loop, _tpl_a
 
 def _terminates(case):
     """the plain interpreter finishes — for a macro host also on the wiring the pinned constructor re-makes"""
-    if interpret(as_plain_flow(case)) is None:
+    if _expected_runs(case) is None:
         return False
-    return case.get("host") != "macro" or interpret(as_plain_flow(case, reorder=True)) is not None
+    return case.get("host") != "macro" or _expected_runs(case, reorder=True) is not None
 
 
 def _to_macro(rng, case):
@@ -2033,6 +2147,56 @@ def _with_reruns(rng, case):
     return best
 
 
+def _edit_targets(case):
+    """children that may be replaced / re-added (not wired to themselves, named at most once as starting node) and pulled
+    (no upstream data: their data tree is themselves)"""
+    n = len(case["nodes"])
+    selfwired = {a for a, _c, b, _acc, _v in case["sig"] if a == b} | {d for d, _sl, sr in case["data"] if d == sr}
+    multi = {i for i in case["starters"] if case["starters"].count(i) > 1}
+    fanout = {}
+    for a, c, _b, _acc, _v in case["sig"]:
+        fanout[(a, c)] = fanout.get((a, c), 0) + 1
+    busy = {a for (a, _c), k in fanout.items() if k >= 2} | {b for _a, _c, b, acc, _v in case["sig"] if acc}
+    swap = [i for i in range(n) if i not in selfwired and i not in multi]
+    fed = {d for d, _sl, _sr in case["data"]}
+    pull = [i for i in range(n) if i not in fed]
+    return swap, pull, [i for i in swap if i in busy]
+
+
+def _with_edits(rng, case):
+    """graph edits between wiring and the first run and / or between a failed run and its re-run: replace_child by a fresh
+    node of the same class (preferably an emitter with several receivers or a member / owner of an all-of trigger), pull()
+    of a child without upstream data, remove_child + add_child + re-wiring (workflow hosts)"""
+    swap, pull, busy = _edit_targets(case)
+
+    def some_edits(k):
+        out = []
+        for _ in range(k):
+            r = rng.random()
+            if r < 0.5 and swap:
+                out.append(["replace", rng.choice(busy) if busy and rng.random() < 0.7 else rng.choice(swap)])
+            elif r < 0.8 and pull:
+                out.append(["pull", rng.choice(pull)])
+            elif swap and case.get("host") != "macro":
+                out.append(["readd", rng.choice(swap)])
+        return out
+
+    reruns = len(case.get("rerun", []))
+    between = [some_edits(rng.choice([0, 1, 1, 2])) for _ in range(reruns)]
+    wire = some_edits(rng.choice([1, 1, 2])) if not reruns or rng.random() < 0.6 else []
+    trial = {**case, "edits": {"wire": wire, "between": between}}
+    if not (wire or any(between)):
+        return case
+    if _expected_runs(trial) is None or (trial.get("host") == "macro" and _expected_runs(trial, reorder=True) is None):
+        return case
+    # the recorded re-runs were chosen for the unedited flow: keep them only while every run but the last still reports errors
+    exps = _expected_runs(trial)
+    for k in range(reruns):
+        if not exps[k]["errs"]:
+            return case
+    return trial
+
+
 def _gen_flow(rng):
     for _ in range(50):
         case = rng.choice(TEMPLATES)(rng)
@@ -2044,6 +2208,8 @@ def _gen_flow(rng):
             case = _with_stale_memory(rng, case)
         if _valid_flow(case) and _terminates(case):
             case = _with_reruns(rng, case)
+            if rng.random() < 0.35:
+                case = _with_edits(rng, case)
             if rng.random() < 0.3:
                 # a state round trip (pickle) between wiring and running and / or between a failed run and the next
                 between = bool(case.get("rerun")) and rng.random() < 0.6
@@ -2130,6 +2296,15 @@ def gen_cases(rng, tier):
 
 
 def corpus():
+    # seeded C02-8: replace an emitter with three receivers (0 >> 1, 0 >> 2, 0 >> 3: as written 3, 2, 1) and the owner of an
+    # all-of trigger; seeded C02-9: pull a member of an all-of trigger / a receiver of an outside emitter before the run
+    fan = {"kind": "flow", "nodes": [_node("term", ["d", "d", "d"]) for _ in range(5)], "data": [[4, 0, 1]],
+           "sig": [[0, 0, 1, 0, "rshift"], [0, 0, 2, 0, "rshift"], [0, 0, 3, 0, "rshift"], [1, 0, 4, 1, "lshift"], [2, 0, 4, 1, "lshift"]],
+           "starters": [0]}
+    yield {**fan, "edits": {"wire": [["replace", 0], ["replace", 4]], "between": []}}
+    yield {**fan, "host": "macro", "edits": {"wire": [["replace", 0]], "between": []}}
+    yield {**fan, "edits": {"wire": [["pull", 1]], "between": []}}
+    yield {**fan, "edits": {"wire": [["pull", 2], ["readd", 2], ["replace", 2]], "between": []}, "trip": {"wire": True, "between": False}}
     # seeded change C02-4: `tick >> read; tick >> bump` with read created before bump — after a pickle round trip the newest
     # connection must still fire first (0 = tick, 1 = read, 2 = bump: as written 0, 2, 1)
     yield {"kind": "flow", "nodes": [_node("term", ["d", "d", "d"]) for _ in range(3)], "data": [[1, 0, 2]],
@@ -2261,3 +2436,11 @@ def shrink_candidates(case):
             yield {**case, "rerun": case["rerun"][:-1]}
         if case.get("trip"):
             yield {k: v for k, v in case.items() if k != "trip"}
+        ed = case.get("edits") or {}
+        for k in range(len(ed.get("wire") or [])):
+            yield {**case, "edits": {**ed, "wire": ed["wire"][:k] + ed["wire"][k + 1:]}}
+        for b, lst in enumerate(ed.get("between") or []):
+            for k in range(len(lst)):
+                nb = [list(x) for x in ed["between"]]
+                nb[b] = lst[:k] + lst[k + 1:]
+                yield {**case, "edits": {**ed, "between": nb}}
